@@ -1252,6 +1252,12 @@ func c03Idempotent(c *Ctx, w *prove.World) {
 		ok := true
 		why := ""
 		for _, ac := range accCalls {
+			// the accumulating call works directly on a block this very call of Marshal created
+			// (params := parameters.NewParameters(); c.SetParameters(params); params.AddWord(…))
+			if ctor, isCall := ac.Common().Args[0].(*ssa.Call); isCall && returnsFresh(ctor.Common().StaticCallee()) &&
+				(ctor.Block() == ac.Block() && instrBefore(ctor, ac) || ctor.Block() != ac.Block() && ctor.Block().Dominates(ac.Block())) {
+				continue
+			}
 			obj := objOf(ac.Common().Args[0])
 			dominated := false
 			for _, rs := range resets[obj] {
